@@ -20,6 +20,33 @@ inductive Wait where
   | give (c : Nat) (v : Nat)
   | select (cl : List Clause)
   | deadline (us : Nat) (inner : Wait)
+  | timed (us : Nat) (inner : Wait)             -- the timeout argument of ev/read, ev/chunk, ev/write
+  | read (s n : Nat) (chunk : Bool)
+  | write (s len : Nat)
+  | pwait (k : Nat)
+  deriving Repr, Inhabited
+
+/-- result of one read()/write() system call, as observed on the implementation (input of the model) -/
+inductive KRes where
+  | again
+  | err (msg : String)
+  | bytes (n : Nat) (content : String)        -- content: all bytes if n ≤ 40, else the first byte
+  deriving Repr, Inhabited
+
+/-- kernel interactions of ev.c in the order they happened -/
+inductive KIn where
+  | rd (s : String) (limit : Nat) (res : KRes)
+  | wr (s : String) (n : Nat) (res : KRes)
+  | poll (n : Nat) (tick : Nat)
+  | ev (s : String) (mask : String)
+  | self
+  | timer
+  deriving Repr, Inhabited
+
+/-- state of a pending stream operation (StateRead / StateWrite of ev.c) -/
+inductive SOp where
+  | read (s bytesLeft bytesRead : Nat) (chunk : Bool) (content : String)
+  | write (s start len : Nat)
   deriving Repr, Inhabited
 
 inductive Stmt where
@@ -29,6 +56,8 @@ inductive Stmt where
   | spawn (f : Nat)
   | dump (tag : String)
   | count (c : Nat)
+  | closeStream (s : Nat)
+  | exitproc (k : Nat)
   deriving Repr, Inhabited
 
 structure IFiber where
@@ -38,6 +67,7 @@ structure IFiber where
   started : Bool := false
   spawned : Bool := false
   bodies : List Nat := []
+  sop : Option SOp := none
   deriving Inhabited
 
 structure IS where
@@ -50,6 +80,12 @@ structure IS where
   msgs : Array String := #[]
   nextBody : Nat := 1
   out : Array String := #[]
+  streams : Array String := #[]        -- stream names; index = stream id of the model
+  sclosed : Array Bool := #[]
+  procs : Array String := #[]
+  bufs : Array String := #[]           -- printed form of the buffers handed to fibers (Val.buf i)
+  kin : List KIn := []                 -- remaining kernel inputs
+  pendingExits : List Nat := []        -- processes that exited, completion not yet delivered through the self pipe
   deriving Inhabited
 
 /-! ### exact timer heap of ev.c -/
@@ -84,6 +120,8 @@ def heapPop (h : Array Timer) : Array Timer :=
 
 def nameOf (a : Array String) (i : Nat) : String := a[i]?.getD s!"?{i}"
 
+def indexOf (a : Array String) (x : String) : Option Nat := a.toList.findIdx? (· == x)
+
 def showVal (s : IS) : Val → String
   | .nil => "nil"
   | .kw n => ":" ++ nameOf s.kws n
@@ -96,7 +134,7 @@ def showVal (s : IS) : Val → String
   | .err 2 => "\"cannot_write_to_closed_channel\""
   | .err n => "\"" ++ nameOf s.msgs (n - 3) ++ "\""
   | .int n => toString n
-  | .buf n => s!"buf{n}"
+  | .buf n => nameOf s.bufs n
 
 def fname (s : IS) (f : Nat) : String := (s.fibers[f]?.map (·.name)).getD "?"
 
@@ -128,6 +166,10 @@ def dump (s : IS) (tag : String) : IS := Id.run do
   for i in [0:s.chans.size] do
     let ch := s.w.chans i
     s := emit s s!"S chan {nameOf s.chans i} items={ch.items.length} closed={if ch.closed then 1 else 0} rp=[{showPending s ch.rp}] wp=[{showPending s ch.wp}]"
+  for i in [0:s.streams.size] do
+    let st := s.w.streams i
+    let fn := fun (o : Option Nat) => match o with | some f => fname s f | none => "-"
+    s := emit s s!"S stream {nameOf s.streams i} rf={fn st.readFiber} wf={fn st.writeFiber} closed={if s.sclosed[i]?.getD false then 1 else 0}"
   for i in [0:s.fibers.size] do
     if (s.fibers[i]!).spawned then
       s := emit s s!"S fiber {fname s i} sid={(s.w.fibers i).schedId}"
@@ -139,6 +181,131 @@ def addTimerH (s : IS) (f : Nat) (kind : TKind) (us : Nat) : IS :=
   let t : Timer := { when := s.w.now + deltaMs s.cfg us, fiber := f, schedId := (s.w.fibers f).schedId, kind := kind,
                      start := s.w.now, durUs := us }
   { s with heap := heapAdd s.heap t }
+
+/-! ### streams and processes: the callbacks of ev.c with the kernel's answers as input -/
+
+def setSop (s : IS) (f : Nat) (o : Option SOp) : IS :=
+  { s with fibers := s.fibers.modify f fun fb => { fb with sop := o } }
+
+/-- `janet_schedule(fiber, v)` resp. `janet_cancel(fiber, v)` followed by `janet_async_end(fiber)` inside a callback -/
+def complete (s : IS) (f sid : Nat) (v : Val) (isErr : Bool) : IS :=
+  let w := asyncEnd (schedule s.cfg s.w f v isErr (s.w.fibers f).schedId s.w.now (.stream sid)) f
+  setSop { s with w := w } f none
+
+def internMsg (s : IS) (m : String) : IS × Nat :=
+  match s.msgs.toList.findIdx? (· == m) with
+  | some i => (s, i + 3)
+  | none => ({ s with msgs := s.msgs.push m }, s.msgs.size + 3)
+
+def bufVal (s : IS) (n : Nat) (content : String) : IS × Val :=
+  let r := if n ≤ 40 then "@\"" ++ content ++ "\"" else s!"@\"<{n} bytes of {String.ofList (content.toList.take 1)}>\""
+  ({ s with bufs := s.bufs.push r }, .buf s.bufs.size)
+
+/-- ev_callback_read, events INIT / READ / HUP: the `read_more` loop -/
+def readStep (s : IS) (f : Nat) : Nat → IS
+  | 0 => s
+  | fuel + 1 =>
+    match (s.fibers[f]!).sop with
+    | some (.read sid left got chunk content) =>
+      match s.kin with
+      | .rd nm _ res :: rest =>
+        if nm != nameOf s.streams sid then emit s s!"KMISMATCH read of {nameOf s.streams sid} but the implementation read {nm}" else
+        let s := { s with kin := rest }
+        match res with
+        | .again => s
+        | .err m =>
+            let (s, code) := internMsg s m
+            complete s f sid (.err code) true
+        | .bytes n c =>
+            let got' := got + n
+            if got' == 0 then complete s f sid .nil false
+            else
+              let content' := if got' ≤ 40 then content ++ c else (if content.isEmpty then String.ofList (c.toList.take 1) else String.ofList (content.toList.take 1))
+              let left' := left - n
+              if !chunk || left' == 0 || n == 0 then
+                let (s, v) := bufVal s got' content'
+                complete s f sid v false
+              else readStep (setSop s f (some (.read sid left' got' chunk content'))) f fuel
+      | _ => emit s s!"KMISMATCH read of {nameOf s.streams sid} without a kernel answer"
+    | _ => s
+
+/-- ev_callback_write, events INIT / WRITE: one write() -/
+def writeStep (s : IS) (f : Nat) : IS :=
+  match (s.fibers[f]!).sop with
+  | some (.write sid start len) =>
+    if start < len then
+      match s.kin with
+      | .wr nm _ res :: rest =>
+        if nm != nameOf s.streams sid then emit s s!"KMISMATCH write to {nameOf s.streams sid} but the implementation wrote {nm}" else
+        let s := { s with kin := rest }
+        match res with
+        | .again => s
+        | .err m =>
+            let (s, code) := internMsg s m
+            complete s f sid (.err code) true
+        | .bytes n _ =>
+            if n == 0 then
+              let (s, code) := internMsg s "disconnect"
+              complete s f sid (.err code) true
+            else if start + n ≥ len then complete s f sid .nil false
+            else setSop s f (some (.write sid (start + n) len))
+      | _ => emit s s!"KMISMATCH write to {nameOf s.streams sid} without a kernel answer"
+    else complete s f sid .nil false
+  | _ => s
+
+def listening (s : IS) (f : Nat) : Bool := (s.w.fibers f).listener.isSome
+
+/-- one callback invocation for fiber `f`: "r" READ, "w" WRITE, "e" ERR, "h" HUP, "c" CLOSE -/
+def callback (s : IS) (f : Nat) (evn : String) : IS :=
+  match (s.fibers[f]!).sop with
+  | some (.read sid _ got _ content) =>
+      if evn == "r" || evn == "h" then readStep s f 100000
+      else if evn == "e" then
+        let (s, v) := if got > 0 then bufVal s got content else (s, .nil)
+        let st := s.w.streams sid
+        let s := { s with w := { s.w with streams := set s.w.streams sid { st with readFiber := none } } }
+        complete s f sid v false
+      else if evn == "c" then complete s f sid .nil false
+      else s
+  | some (.write sid _ _) =>
+      if evn == "w" then writeStep s f
+      else if evn == "e" || evn == "h" || evn == "c" then
+        let (s, code) := internMsg s (if evn == "e" then "stream_err" else if evn == "h" then "stream_hup" else "stream_closed")
+        complete s f sid (.err code) true
+      else s
+  | none => s
+
+/-- the dispatch of one epoll event in janet_loop1_impl -/
+def dispatch (s : IS) (sid : Nat) (mask : String) : IS :=
+  let has (c : Char) : Bool := mask.toList.contains c
+  let st := s.w.streams sid
+  let s := match st.readFiber with
+    | none => s
+    | some rf =>
+      let s := if listening s rf && has 'r' then callback s rf "r" else s
+      let s := if listening s rf && has 'e' then callback s rf "e" else s
+      if listening s rf && has 'h' then callback s rf "h" else s
+  match st.writeFiber with
+  | none => s
+  | some wf =>
+    let s := if listening s wf && has 'w' then callback s wf "w" else s
+    let s := if listening s wf && has 'e' then callback s wf "e" else s
+    if listening s wf && has 'h' then callback s wf "h" else s
+
+/-- janet_stream_close -/
+def closeStream (s : IS) (sid : Nat) : IS :=
+  let st := s.w.streams sid
+  let s := match st.readFiber with
+    | some rf => if listening s rf then
+        let s := callback s rf "c"
+        { s with w := { s.w with streams := set s.w.streams sid { (s.w.streams sid) with readFiber := none } } } else s
+    | none => s
+  let s := match st.writeFiber with
+    | some wf => if listening s wf then
+        let s := callback s wf "c"
+        { s with w := { s.w with streams := set s.w.streams sid { (s.w.streams sid) with writeFiber := none } } } else s
+    | none => s
+  { s with sclosed := s.sclosed.setIfInBounds sid true }
 
 inductive Outcome where
   | blocked
@@ -178,6 +345,22 @@ def startWait (s : IS) (f : Nat) : Wait → IS × Outcome
           | .give c v => (chanPush s.cfg w f c (.kw v) true).1
           | .take c => (chanPop s.cfg w f c true).1) s.w
         ({ s with w := w' }, .blocked)
+  | .timed us inner => startWait (addTimerH s f .timeout us) f inner
+  | .read sid n chunk =>
+      if s.sclosed[sid]?.getD false then
+        let (s, code) := internMsg s "stream_is_closed"
+        (s, .done (.err code) true)
+      else
+        let s := { s with w := asyncStart s.w f sid true }
+        (readStep (setSop s f (some (.read sid n 0 chunk ""))) f 100000, .blocked)
+  | .write sid len =>
+      if s.sclosed[sid]?.getD false then
+        let (s, code) := internMsg s "stream_is_closed"
+        (s, .done (.err code) true)
+      else
+        let s := { s with w := asyncStart s.w f sid false }
+        (writeStep (setSop s f (some (.write sid 0 len))) f, .blocked)
+  | .pwait k => ({ s with w := procWait s.w f k }, .blocked)
   | .deadline us inner =>
       let b := s.nextBody
       let s := { s with nextBody := b + 1, w := step s.cfg s.w (.bodyStart b) }
@@ -220,9 +403,15 @@ def runFiber (s : IS) (f : Nat) : Nat → IS
       | .count c =>
           let s := emit s s!"L {s.w.now} {fname s f} :{label s f} {(s.w.chans c).items.length}"
           runFiber (next s) f fuel
+      | .closeStream sid => runFiber (next (closeStream s sid)) f fuel
+      | .exitproc k =>
+          -- closing the child's stdin makes it exit; verif/settle waits until the waiter thread has posted the completion
+          let s := emit s s!"L {s.w.now} {fname s f} :settle true"
+          runFiber (next { s with pendingExits := s.pendingExits ++ [k] }) f fuel
 
 /-- a task was executed for fiber `f` -/
 def resume (s : IS) (f : Nat) (v : Val) (isErr : Bool) : IS :=
+  let s := setSop s f none        -- janet_fiber_did_resume -> janet_async_end frees the operation's state
   let fb := s.fibers[f]!
   if !fb.started then
     runFiber { s with fibers := s.fibers.modify f fun fb => { fb with started := true } } f 10000
@@ -265,18 +454,40 @@ def dropPhase (s : IS) : Nat → IS
         | _ => !(live s.w to.fiber to.schedId)
       if dead then dropPhase { s with heap := heapPop s.heap } fuel else s
 
+/-- the events one epoll_wait call returned (input): stream readiness, self-pipe completions -/
+def pollEvents (s : IS) : Nat → IS
+  | 0 => s
+  | n + 1 =>
+    match s.kin with
+    | .ev nm mask :: rest =>
+        let s := { s with kin := rest }
+        let s := match indexOf s.streams nm with
+          | some sid => dispatch s sid mask
+          | none => s
+        pollEvents s n
+    | .self :: rest =>
+        let w := s.pendingExits.foldl (fun w k => procExit s.cfg w k 7) s.w
+        pollEvents { s with kin := rest, w := w, pendingExits := [] } n
+    | .timer :: rest => pollEvents { s with kin := rest } n
+    | _ => emit s "KMISMATCH poll group shorter than announced"
+
 def loop (s : IS) : Nat → IS
   | 0 => emit s "D fuel"
   | fuel + 1 =>
     let s := timerPhaseH s (s.heap.size + 1)
     let s := runPhase s 100000
     let s := dropPhase s (s.heap.size + 1)
-    if s.heap.size = 0 then s
-    else
-      let to := s.heap[0]!
-      let s := if to.when > s.w.now then { s with w := { s.w with now := to.when } } else s
-      loop s fuel
+    let pollNow : Option (Nat × List KIn) := match s.kin with
+      | .poll n t :: rest => if t ≤ s.w.now then some (n, rest) else none
+      | _ => none
+    match pollNow with
+    | some (n, rest) => loop (pollEvents { s with kin := rest } n) fuel   -- the kernel had something ready: no clock jump
+    | none =>
+      if s.heap.size = 0 then (if s.kin.isEmpty then s else emit s s!"KMISMATCH {s.kin.length} kernel interactions of the implementation were not reached")
+      else
+        let to := s.heap[0]!
+        let s := if to.when > s.w.now then { s with w := { s.w with now := to.when } } else s
+        loop s fuel
 
-def indexOf (a : Array String) (x : String) : Option Nat := a.toList.findIdx? (· == x)
 
 end JanetModel.Wait.Interp
